@@ -13,12 +13,19 @@ RULE = ('book stream: histories as C09 applied through Engine.apply_update; afte
         'after every tick: tables = hierarchy, published composite = store getters, each process alive at the start of '
         'the tick invoked exactly once, each step alive after the batch run exactly once, nothing deleted invoked; at '
         'the end an engine rebuilt from the published composite and the current state must continue identically. '
+        'live stream (as C07): the histories issued by a director process or a director STEP inside a running engine '
+        'built from its parts or from a generated store; per step phase every kit step that exists at its place when '
+        'the phase begins and when it ends must have run exactly once, one created during the phase not at all. '
         'Non-trivial: >=3 updates.')
 ASSUMPTIONS = __import__('harness.c09', fromlist=['x']).ASSUMPTIONS + [
     'closed flows: flow dependencies stay inside a compartment that is deleted / moved / divided as a unit',
 ]
 IMPORTS, CHECK_FN, BAD_TERM = struct.IMPORTS, struct.CHECK_FN, struct.BAD_TERM
-model_output = struct.model_output
+def model_output(case, ob):
+    if case['kind'] == 'live':
+        from harness import live
+        return common.coq_eval('LIVE', live.IMPORTS, 'model_out_all %s' % live.render(case, ob))[:4000]
+    return struct.model_output(case, ob)
 
 
 def generate(seed, tier, enlarged=False):
@@ -45,6 +52,19 @@ def generate(seed, tier, enlarged=False):
         else:
             cases.append({'kind': 'run', 'hist': struct.gen_history(rng, rng.randint(3, 9), allow_bad=False),
                           'ts': [rng.choice([1, 1, 2, 3]) for _ in range(40)], 'extra': rng.randint(1, 3)})
+    # steps under structural updates issued by steps of the same phase: the live stream of C07, judged here by
+    # its exactly-once-per-phase oracle (and compared with Model/Views.v as there)
+    from harness import live
+    cases += [live.gen_case(rng) for _ in range(n // 5)]
+    # corpus: known finding K10 (a compartment is moved while its sensor, timestep 3, has an update in flight)
+    cases.append({'kind': 'live', 'hist': [['A', [['generate', 'c01', 0, {}]]], ['A', [['generate', 'c02', 0, {}]]],
+                                           ['A', [['move', 'c02', 'B']]], ['B', [['generate', 'c03', 0, {}]]]],
+                  'director': 'process', 'refresh': [], 'extra': 2, 'slow': True, 'entry': 'parts', 'more': {}})
+    # corpus: a director step deletes a compartment whose second flow step sorts before another compartment's
+    # in the next layer of the same phase
+    cases.append({'kind': 'live', 'hist': [['A', [['generate', 'c01', 2, {}]]], ['A', [['generate', 'c02', 2, {}]]],
+                                           ['A', [['delete', 'c01']]], ['B', [['generate', 'c03', 0, {}]]]],
+                  'director': 'step', 'refresh': [], 'extra': 2, 'slow': False, 'entry': 'parts', 'more': {}})
     return cases
 
 
@@ -267,6 +287,9 @@ def oracle(c, ob, rng):
 
 
 def stat_key(c, ob):
+    if c['kind'] == 'live':
+        from harness import live
+        return live.stat_key(c, ob)
     if c['kind'] == 'run':
         return 'run/%s' % ('clean' if not ob['problems'] else ob['problems'][0][1])
     return 'book/' + struct.stat_key(c, ob)
@@ -277,4 +300,15 @@ def nontrivial(c, ob):
 
 
 def run(cases, tier='quick', seed=0):
-    return common.generic_run(__import__('harness.c10', fromlist=['x']), cases, seed, shard=40)
+    from harness import live
+    me = __import__('harness.c10', fromlist=['x'])
+
+    class Live:
+        __name__ = 'harness.live'
+        IMPORTS, CHECK_FN, BAD_TERM = live.IMPORTS, live.CHECK_FN, live.BAD_TERM
+        run_impl, render = staticmethod(live.run_impl), staticmethod(live.render)
+        oracle = staticmethod(lambda c, ob, rng: live.oracle_raised(c, ob, rng) + live.oracle_phases(c, ob, rng))
+        nontrivial, stat_key = staticmethod(live.nontrivial), staticmethod(live.stat_key)
+    return common.merge_streams(cases, [
+        (lambda c: c['kind'] != 'live', lambda cs: common.generic_run(me, cs, seed, shard=40)),
+        (lambda c: c['kind'] == 'live', lambda cs: common.generic_run(Live, cs, seed, shard=20))])
